@@ -69,6 +69,16 @@ def expectedAllocAssigns : List String :=
    "q.dataPageIndex = nextDataPageIndex", "q.messageOffset = 0", "messageOffset := q.messageOffset",
    "q.messageOffset += dataLen"]
 
+/-- Factory.TruncatePages: one loop over the page map, a page is removed iff its ID is below
+the bound (`truncateData`/`truncateIndex` filter the live ids by `bound ≤ p`) -/
+def expectedTruncatePagesConds : List String :=
+  ["f.closed.Load()", "pageID < index", "ok", "err != nil", "err != nil"]
+def expectedTruncatePagesLoops : List String := ["for pageID, _ range f.pages"]
+def expectedTruncatePagesCallSeq : List String :=
+  ["mutex.Lock", "defer:mutex.Unlock", "closed.Load", "page.Close", "logger.String", "logger.Any",
+   "logger.Error", "logger.Warn", "f.pageFileName", "removeFileFunc", "logger.String", "logger.Any",
+   "logger.Error", "logger.Warn", "delete", "int64", "size.Sub", "logger.String", "logger.Any", "logger.Info"]
+
 def expectedWriteBytesBody : List String := ["copy(mp.mappedBytes[offset:], data)"]
 
 /-! ### appended sequence along a history -/
